@@ -201,6 +201,16 @@ class Guard:
             return self.path_of(n["recv"])
         if n["k"] == "MethodCall" and not n["args"] and (n["name"] in LOSSY_CONVERSIONS or n["name"] == "to_f64"):
             return self.path_of(n["recv"])
+        if n["k"] == "MethodCall" and not n["args"]:
+            # an accessor named after a field of the parameter set (`self.tokenizer_function()`): the field itself (that such an
+            # accessor returns its own field is R-C04-accessor's business)
+            b = self.path_of(n["recv"])
+            if b in ("", "0", "0.0"):
+                d = self.c.dfn(n.get("inst", n.get("def"))) or {}
+                adt = (d.get("self_adt") or "").split("::")[-1]
+                for a in self.c.adts:
+                    if (a.get("path") or a.get("name") or "").split("::")[-1] == adt and any(f_["name"] == n["name"] for v in a["variants"] for f_ in v["fields"]):
+                        return n["name"]
         return None
 
     def note_path(self, p, node):
